@@ -1038,6 +1038,14 @@ func (db *DB) reWriteData(pendingMergeEntries []*Entry) error {
 		return err
 	}
 
+	// a data file whose creation failed half-way (in an earlier Merge or
+	// rotation) may exist under the next id: reusing it here would put the
+	// records of this, older, file behind those of newer files once Merge
+	// comes to treat that file as a source
+	if maxFileID, _ := db.getMaxFileIDAndFileIDs(); maxFileID > db.MaxFileID {
+		db.MaxFileID = maxFileID
+	}
+
 	dataFile, err := NewDataFile(db.getDataPath(db.MaxFileID+1), db.opt.SegmentSize, db.opt.RWMode)
 	if err != nil {
 		tx.Rollback()
